@@ -143,7 +143,30 @@ def sc_step(V, natoms=1, others="zero", per_coord_delta=False, power=0.25, symbo
     fb._rng = rng
     pos0 = np.array(atoms.get_positions(), dtype=object if V.mode == "sym" else float)
     try:
-        fb.step()
+        if V.mode == "sym":
+            fb.step()
+        else:
+            # replay on the real code: a step that does not come back is the termination clause failing
+            import signal
+
+            class _Hung(Exception):
+                pass
+
+            def _alarm(*a):
+                raise _Hung()
+
+            old = signal.signal(signal.SIGALRM, _alarm)
+            signal.alarm(8)
+            try:
+                with np.errstate(all="ignore"):
+                    fb.step()
+            except _Hung:
+                V.fail("exp-arguments-below-overflow", info=info + ":step-did-not-terminate")
+                V.fail("terminates", info=info)
+                return
+            finally:
+                signal.alarm(0)
+                signal.signal(signal.SIGALRM, old)
     except symx.Unsupported:
         raise
     except (symx.PathAbort, symx.BoundHit):
